@@ -24,11 +24,19 @@ type vC09Cfg struct {
 	warm    bool // preceded by concurrent use
 	reqs    int
 	hotFrac int // hot set = cap / hotFrac
+	heavy   int // > 0: hot keys cost this much, every other key 1; the cache is first filled with cheap one-off keys
 }
 
 func vC09Run(tr *vTrace, id string, c vC09Cfg, salt int64) {
 	rnd := vRand(salt)
+	nhot := 0
 	costOf := func(k int) int64 {
+		if c.heavy > 0 {
+			if k <= nhot {
+				return int64(c.heavy)
+			}
+			return 1
+		}
 		if c.mixed {
 			return int64(1 + k%3)
 		}
@@ -104,9 +112,13 @@ func vC09Run(tr *vTrace, id string, c vC09Cfg, salt int64) {
 	if c.mixed {
 		hot = c.cap / (2 * c.hotFrac) // hot set cost stays within half the cache
 	}
+	if c.heavy > 0 {
+		hot = c.cap / (2 * c.heavy) // hot set cost = half the cache
+	}
 	if hot < 1 {
 		hot = 1
 	}
+	nhot = hot
 	z := rand.NewZipf(rnd, 1.01, 9.0, uint64(c.cap*1000))
 	oneoff := 1000000
 	request := func(k int, isHot bool, tail bool) {
@@ -124,6 +136,14 @@ func vC09Run(tr *vTrace, id string, c vC09Cfg, salt int64) {
 			}
 		}
 		tr.Emit(vRec{"ev": "req", "k": k, "hit": vb(hit), "hot": vb(isHot), "tail": vb(tail), "cost": costOf(k)})
+	}
+	if c.heavy > 0 {
+		// the cache is full of cheap keys that are never read again when the (heavy) hot keys arrive
+		for i := 0; i < c.cap; i++ {
+			oneoff++
+			request(oneoff, false, false)
+		}
+		st.Wait()
 	}
 	for i := 0; i < c.reqs; i++ {
 		tail := i >= c.reqs*6/10
@@ -189,6 +209,15 @@ func TestVerif_C09Quality(t *testing.T) {
 			}
 			vC09Run(tr, fmt.Sprintf("zipf_c%d_v%d", cap, v), c, int64(cap*10+v+5))
 			n += 2
+		}
+		// heavy hot keys (cost 8 / 20, half the cache in total) against light one-off keys, cache pre-filled
+		for hv, heavy := range []int{8, 20} {
+			if cap/(2*heavy) < 2 {
+				continue
+			}
+			c := vC09Cfg{cap: cap, kind: "hot", mixed: true, heavy: heavy, loading: hv == 1, hotFrac: 2, reqs: 20000}
+			vC09Run(tr, fmt.Sprintf("heavyhot_c%d_h%d", cap, heavy), c, int64(cap*10+50+hv))
+			n++
 		}
 	}
 	vSummary(out, "c09.json", map[string]any{"runs": n, "events": tr.n})
